@@ -57,6 +57,30 @@ pub fn guarded<R>(f: impl FnOnce() -> R) -> Result<R, (String, String)> {
     r.map_err(|_| LAST_PANIC.with(|p| p.borrow_mut().take()).unwrap_or_default())
 }
 
+/// Violation class of a panic: file (no line number, so that unrelated edits do not rename it)
+/// plus the message with every number replaced by '#'.
+pub fn panic_class(p: &(String, String)) -> String {
+    let loc = short_loc(&p.1);
+    let file = loc.rsplit_once(':').map(|x| x.0).unwrap_or(&loc);
+    let mut msg = String::new();
+    let mut in_num = false;
+    for ch in p.0.chars() {
+        if ch.is_ascii_digit() {
+            if !in_num {
+                msg.push('#');
+            }
+            in_num = true;
+        } else {
+            in_num = false;
+            msg.push(if ch == '\n' { ' ' } else { ch });
+        }
+        if msg.len() >= 64 {
+            break;
+        }
+    }
+    format!("panic@{file}:{msg}")
+}
+
 pub fn short_loc(loc: &str) -> String {
     // keep "src/.../file.rs:line" for ggrs, crate name for dependencies
     if let Some(i) = loc.find("/repo/") {
@@ -309,8 +333,35 @@ impl<'p, C: SimCfg> World<'p, C> {
     fn panic_violation(&mut self, node: usize, what: &str, p: (String, String)) {
         let loc = short_loc(&p.1);
         let frame = self.nodes.get(node).map(|n| n.game.g).unwrap_or(-1);
-        self.violate(&format!("panic@{loc}"), node, frame, format!("{what} panicked at {loc}: {}", p.0));
+        let split = if self.survivors_split() { "+split" } else { "" };
+        self.violate(&format!("{}{split}", panic_class(&p)), node, frame, format!("{what} panicked at {loc}: {}", p.0));
         self.fatal = true;
+    }
+
+    /// True when a node has stopped and the peers still alive hold different last frames for its
+    /// players (they received different amounts of its input): the precondition of the recorded
+    /// C10 finding.
+    fn survivors_split(&self) -> bool {
+        let dead: Vec<usize> = self.plan.peers().into_iter().filter(|&i| self.plan.nodes[i].tick.stop_us.is_some_and(|t| t <= self.now)).collect();
+        let mut split = false;
+        for v in dead {
+            for &pl in &self.nodes[v].locals {
+                let lfs: Vec<i32> = self
+                    .plan
+                    .peers()
+                    .into_iter()
+                    .filter(|&i| self.plan.nodes[i].tick.stop_us.is_none())
+                    .filter_map(|i| match &self.nodes[i].sess {
+                        Sess::Peer(s) => s.verif_connect_status(pl).map(|c| c.1),
+                        _ => None,
+                    })
+                    .collect();
+                if lfs.windows(2).any(|w| w[0] != w[1]) {
+                    split = true;
+                }
+            }
+        }
+        split
     }
 
     pub fn new(plan: &'p Plan) -> Result<Self, String> {
@@ -1419,7 +1470,13 @@ impl<'p, C: SimCfg> World<'p, C> {
         if self.viol.is_empty() && !self.fatal {
             // liveness after the last fault
             if let Some(lv) = &plan.oracle.liveness {
-                if plan.horizon_us >= lv.deadline_us {
+                // peers wait for each other: when one of the sessions in scope never got Running (its
+                // handshake partner died first) the others stall by design
+                let all_running = (0..self.nodes.len()).filter(|i| self.nodes[*i].alive && (lv.nodes.is_empty() || lv.nodes.contains(i))).all(|i| match &self.nodes[i].sess {
+                    Sess::Peer(s) => s.current_state() == SessionState::Running,
+                    Sess::Spec(s) => s.current_state() == SessionState::Running,
+                });
+                if plan.horizon_us >= lv.deadline_us && (lv.require_running || all_running) {
                     self.now = self.now.max(lv.deadline_us);
                     for i in 0..self.nodes.len() {
                         if !self.nodes[i].alive || (!lv.nodes.is_empty() && !lv.nodes.contains(&i)) {
@@ -1460,6 +1517,51 @@ impl<'p, C: SimCfg> World<'p, C> {
                             let fb = self.nodes[i].min_fb_late;
                             if lv.spectator_lag && catchup >= 2 && fb != usize::MAX && fb > max_behind + 2 {
                                 self.violate("c05.spectator_lagging", i, g, format!("spectator node {i} is still {fb} frames behind its host {} ms after the last fault (max_frames_behind {max_behind}, catchup_speed {catchup})", (self.now - lv.heal_us) / 1000));
+                            }
+                        }
+                    }
+                }
+            }
+            // C10: survivors of a dropped peer agree on its cut-off
+            if plan.oracle.survivor_agreement {
+                let survivors: Vec<usize> = plan.peers().into_iter().filter(|&i| self.nodes[i].alive).collect();
+                let victims: Vec<usize> = plan.peers().into_iter().filter(|&i| !self.nodes[i].alive).collect();
+                let vplayers: Vec<usize> = victims.iter().flat_map(|&v| self.nodes[v].locals.clone()).collect();
+                let all_disconnected = survivors.iter().all(|&s| match &self.nodes[s].sess {
+                    Sess::Peer(ss) => vplayers.iter().all(|&p| ss.verif_connect_status(p).is_some_and(|c| c.0)),
+                    _ => true,
+                });
+                if all_disconnected && survivors.len() >= 2 {
+                    *self.probes.extra.entry("c10_runs_compared").or_insert(0) += 1;
+                    let lfs: Vec<i32> = survivors.iter().filter_map(|&s| match &self.nodes[s].sess {
+                        Sess::Peer(ss) => vplayers.first().and_then(|&p| ss.verif_connect_status(p)).map(|c| c.1),
+                        _ => None,
+                    }).collect();
+                    if lfs.windows(2).any(|w| w[0] != w[1]) {
+                        *self.probes.extra.entry("c10_survivors_received_different_amounts").or_insert(0) += 1;
+                    }
+                    let upto = survivors.iter().map(|&s| self.nodes[s].game.sealed.min(self.nodes[s].game.g)).min().unwrap_or(0);
+                    let a = survivors[0];
+                    'cmp: for &b in &survivors[1..] {
+                        for f in 0..upto.max(0) as usize {
+                            for &p in &vplayers {
+                                let (ua, ub) = (self.nodes[a].game.used[f][p], self.nodes[b].game.used[f][p]);
+                                if ua.0 != ub.0 || (ua.1 == St::Disconnected) != (ub.1 == St::Disconnected) {
+                                    let cls = if self.survivors_split() { "c10.survivors_disagree+split" } else { "c10.survivors_disagree" };
+                                    self.violate(
+                                        cls,
+                                        b,
+                                        f as i32,
+                                        format!("frame {f}, dropped player {p}: node {a} finally used {:#x} ({:?}) but node {b} used {:#x} ({:?})", ua.0, ua.1, ub.0, ub.1),
+                                    );
+                                    break 'cmp;
+                                }
+                            }
+                            if self.nodes[a].game.hist[f + 1] != self.nodes[b].game.hist[f + 1] {
+                                let (x, y) = (self.nodes[a].game.hist[f + 1], self.nodes[b].game.hist[f + 1]);
+                                let cls = if self.survivors_split() { "c10.survivors_disagree+split" } else { "c10.survivors_disagree" };
+                                self.violate(cls, b, f as i32, format!("state after frame {f}: node {a} has {x:x}, node {b} has {y:x}"));
+                                break 'cmp;
                             }
                         }
                     }
